@@ -294,11 +294,25 @@ class Classifier:
                             c, d = int(y[6:]), int(b[6:])
                             if (rop == "Ge" and c >= d) or (rop == "Gt" and c + 1 >= d) or (rop == "Ne" and c == 0 and d == 1):
                                 auto = ("guarded", "dominating comparison %s(%s,%s)" % (rop, x[:40], y))
+            if auto is None and tystr and op in ("Add", "Sub", "Mul", "Shl") and len(s["ops"]) == 2:
+                import intervals as _iv
+                ivs_ = _iv.Intervals(self.ctx, f)
+                r_ = _iv.arith(op, ivs_.operand(s["ops"][0]), ivs_.operand(s["ops"][1]))
+                if _iv.fits(r_, tystr):
+                    auto = ("interval", "operand intervals give a result in [%d, %d], inside %s" % (r_[0], r_[1], tystr))
         elif kind == "OverflowNeg":
             a = ops[0]
             for (rop, x, y) in rels:
                 if x == a and rop in ("Gt", "Ge") and re.match(r"^const:-?\d+$", y):
                     auto = ("guarded", "operand bounded below")
+            if auto is None and s["ops"]:
+                import intervals as _iv
+                o_ = s["ops"][0]
+                ty_ = (o_["place"].get("ty") if o_["place"]["proj"] else f.locals[o_["place"]["local"]]["s"]) if o_["k"] in ("copy", "move") else o_.get("ty")
+                rng_ = _iv.ty_range(ty_ or "")
+                iv_ = _iv.Intervals(self.ctx, f).operand(o_)
+                if rng_ is not None and iv_ is not None and iv_[0] > rng_[0]:
+                    auto = ("interval", "operand lies in [%d, %d]: its negation exists in %s" % (iv_[0], iv_[1], ty_))
         elif kind == "Index":
             idx = ops[1] if len(ops) > 1 else ""
             cont = ops[0] if ops else ""
